@@ -276,8 +276,9 @@ r_buf_rpos_check_fast(r_buf_p r_buf, r_buf_rpos_p rpos) {
 			/* Reader out of buf range in previous round - normal. */
 			return (1); /* OK: fixed. */
 		}
-		if (rpos->iov_index > r_buf->iov_index)
-			return (1); /* OK: in range. */
+		if (rpos->iov_index > r_buf->iov_index &&
+		    (uint8_t*)r_buf->iov[rpos->iov_index].iov_base >= (r_buf->buf + r_buf->wpos))
+			return (1); /* OK: in range and not overwritten. */
 		/* Out of range: slow reader. */
 		return (0);
 	}
@@ -315,11 +316,17 @@ r_buf_rpos_check(r_buf_p r_buf, r_buf_rpos_p rpos, size_t *drop_size_ret) {
 			rpos->round_num ++;
 			return (1); /* OK: fixed. */
 		}
-		if (rpos->iov_index > r_buf->iov_index)
-			return (1); /* OK: in range. */
+		if (rpos->iov_index > r_buf->iov_index &&
+		    (uint8_t*)r_buf->iov[rpos->iov_index].iov_base >= (r_buf->buf + r_buf->wpos))
+			return (1); /* OK: in range and not overwritten. */
 		/* Out of range: slow reader. */
-		drop_size = (r_buf->size + r_buf_iovec_calc_size(&r_buf->iov[rpos->iov_index],
-		    (1 + r_buf->iov_index - rpos->iov_index)));
+		if (rpos->iov_index > r_buf->iov_index) { /* Overwritten tail of previous round. */
+			drop_size = r_buf_iovec_calc_size(&r_buf->iov[rpos->iov_index],
+			    (1 + r_buf->iov_index_max - rpos->iov_index));
+		} else {
+			drop_size = (r_buf->size + r_buf_iovec_calc_size(&r_buf->iov[rpos->iov_index],
+			    (1 + r_buf->iov_index - rpos->iov_index)));
+		}
 		if (NULL != drop_size_ret) {
 			(*drop_size_ret) = drop_size;
 		}
